@@ -57,6 +57,10 @@ fn spec_for(prop: &str, tier: Tier) -> Option<CheckSpec> {
                 let s3 = c15::C15Scenario { ms, depth: if thorough { 9 } else if ms == 1 { 6 } else { 5 } };
                 scenarios.push(sqlite_bound(Scenario::new(&format!("diesel-sqlite/ms{}", ms), "real diesel SqliteConnection :memory:; recycling methods Fast / Verified (open transaction), CustomQuery (failing query), CustomFunction (failing check); poisoned or broken connections", 0, 0, move || c15::run_c15::<c15::DieselSqlite>(&s3))));
             }
+            scenarios.push(Scenario::new("two-gets-at-once/r2d2", "thread level: both connections of a pool of two are idle, one broken or invalid; two threads call get() at once, so the two recycling checks (blocking closures with a scheduling point inside is_valid) overlap", if thorough { 2 } else { 1 }, 0, c15c::run_c15_two_gets::<c15::R2d2>));
+            if thorough {
+            scenarios.push(sqlite_bound(Scenario::new("two-gets-at-once/diesel-sqlite", "same on the real diesel SqliteConnection pool, every recycling method and way of breaking", 1, 0, c15c::run_c15_two_gets::<c15::DieselSqlite>)));
+            }
             for panic in [false, true] {
                 let tag = if panic { "panics" } else { "breaks" };
                 let p = if thorough { 4 } else { 3 };
